@@ -427,4 +427,11 @@ theorem c17_window_about_eleven_minutes :
     0 < Whv.Gen.C17.tickNs := by
   decide
 
+/-- "…and again once the window has lapsed": the purge runs at least every seven minutes, so with a ticker that
+keeps firing a lapsed entry is gone — and the transaction can be forwarded again (`c17_again_after_window`) — at most
+eighteen minutes after the forward. -/
+theorem c17_reforward_latency :
+    Whv.Gen.C17.tickNs ≤ 7 * 60 * 1000000000 ∧ Whv.Gen.C17.windowNs + Whv.Gen.C17.tickNs ≤ 18 * 60 * 1000000000 := by
+  decide
+
 end Whv.C17
